@@ -48,13 +48,16 @@ Proof.
 Qed.
 
 (* ------------------------------------------------------------ parent() *)
-Theorem parent_spec : forall t cache o, wf_table t = true -> alive_b t o = true ->
+Theorem parent_spec_fx : forall fx t cache o, wf_table t = true -> alive_b t o = true ->
   cache_fresh_b t cache = true ->
-  parent as_is t cache o = Val (spec_parent t (o_pid o) (o_ident o)).
+  parent fx t cache o = Val (spec_parent t (o_pid o) (o_ident o)).
 Proof.
-  intros t cache o W A F. destruct (fresh_lowest t cache o A F) as [r [Lr Rr]].
+  intros fx t cache o W A F. destruct (fresh_lowest t cache o A F) as [r [Lr Rr]].
   destruct (alive_facts t o A) as [R [C [e [L S]]]].
-  unfold parent, spec_parent, is_root_b. cbn [fx_parent_reuse as_is obind]. rewrite Lr, Rr. cbn [obind].
+  unfold parent, spec_parent, is_root_b.
+  assert (P0 : (if fx_parent_reuse fx then raise_if_pid_reused t o else Val tt) = Val tt)
+    by (destruct (fx_parent_reuse fx); [exact R | reflexivity]).
+  rewrite P0. cbn [obind]. rewrite Lr, Rr. cbn [obind].
   destruct (o_pid o =? r); [reflexivity|].
   unfold ppid_call. rewrite R, L, C. cbn [obind].
   pose proof (lookup_In _ _ _ L) as [He _].
@@ -66,6 +69,11 @@ Proof.
   apply lookup_In in Lp. destruct Lp as [_ Ep]. rewrite Ep.
   destruct (kp_start pe <=? o_ident o); reflexivity.
 Qed.
+
+Theorem parent_spec : forall t cache o, wf_table t = true -> alive_b t o = true ->
+  cache_fresh_b t cache = true ->
+  parent as_is t cache o = Val (spec_parent t (o_pid o) (o_ident o)).
+Proof. exact (parent_spec_fx as_is). Qed.
 
 Definition tab15 : table := [ {| kp_pid := 1; kp_ppid := 0; kp_start := 1 |};
                               {| kp_pid := 5; kp_ppid := 1; kp_start := 10 |} ].
@@ -81,29 +89,25 @@ Example parent_spec_hyps :
   cache_fresh_b tab15 None = true /\ parent as_is tab15 None o5' = Val (Some (1, 1)).
 Proof. repeat split; vm_compute; reflexivity. Qed.
 
-(* recycled caller: NoSuchProcess -- except, in the code as it is, for the PID
-   parent() takes for the lowest one *)
-Theorem parent_recycled : forall t cache o low, recycled_b t o = true ->
-  lowest_pid t cache = Val low -> o_pid o <> low ->
+(* recycled caller: NoSuchProcess, whatever the table and the cache hold *)
+Theorem parent_recycled : forall t cache o, recycled_b t o = true ->
   parent as_is t cache o = Exc NoSuchProcess.
 Proof.
-  intros t cache o low H Lw Ne. unfold parent. cbn [fx_parent_reuse as_is obind]. rewrite Lw. cbn [obind].
-  apply Z.eqb_neq in Ne. rewrite Ne. unfold ppid_call. rewrite (recycled_raises t o H). reflexivity.
+  intros t cache o H. unfold parent. cbn [fx_parent_reuse as_is]. rewrite (recycled_raises t o H). reflexivity.
 Qed.
 
-Theorem parent_recycled_patched : forall fx t cache o, fx_parent_reuse fx = true -> recycled_b t o = true ->
-  parent fx t cache o = Exc NoSuchProcess.
-Proof.
-  intros fx t cache o F H. unfold parent. rewrite F. rewrite (recycled_raises t o H). reflexivity.
-Qed.
+Theorem parents_recycled : forall t cache o fuel, recycled_b t o = true ->
+  parents as_is fuel t cache o = Exc NoSuchProcess.
+Proof. intros t cache o fuel H. unfold parents. rewrite (parent_recycled t cache o H). reflexivity. Qed.
 
 Definition tab1r : table := [ {| kp_pid := 1; kp_ppid := 0; kp_start := 20 |};
                               {| kp_pid := 5; kp_ppid := 1; kp_start := 30 |} ].
 Definition o1r : pobj := {| o_pid := 1; o_ident := 10; o_ctime := None |}.
 
-Theorem parent_recycled_lowest_refuted :
+(* the code before repair 3959fba: the recycled lowest PID got None / [] *)
+Theorem parent_recycled_old_refuted :
   exists t o, wf_table t = true /\ recycled_b t o = true /\
-    parent as_is t None o = Val None /\ parents as_is 3 t None o = Val (Some []).
+    parent before_fixes t None o = Val None /\ parents before_fixes 3 t None o = Val (Some []).
 Proof. exists tab1r, o1r. repeat split; vm_compute; reflexivity. Qed.
 
 (* ------------------------------------------------------------ parents() *)
@@ -130,65 +134,117 @@ Proof. intros t q sq e L S. unfold spec_parent_of. rewrite L, S. reflexivity. Qe
 Lemma loop_none : forall fx t c fuel seen acc, parents_loop fx t c fuel seen None acc = Val (Some acc).
 Proof. intros. destruct fuel; reflexivity. Qed.
 
+Lemma loop_seen : forall fx t c fuel seen q sq acc, fx_parents_seen fx = true -> memz q seen = true ->
+  parents_loop fx t c fuel seen (Some (q, sq)) acc = Val (Some acc).
+Proof. intros fx t c fuel seen q sq acc F M. destruct fuel; cbn [parents_loop fst]; rewrite F, M; reflexivity. Qed.
+
+Lemma loop_unfold : forall fx t c f seen q sq acc, (fx_parents_seen fx && memz q seen) = false ->
+  parents_loop fx t c (S f) seen (Some (q, sq)) acc =
+  (do nxt <- parent fx t c (obj_of (q, sq)); parents_loop fx t c f (q :: seen) nxt (acc ++ [q])).
+Proof. intros fx t c f seen q sq acc G. cbn [parents_loop fst]. rewrite G. reflexivity. Qed.
+
+Lemma loop_zero : forall fx t c seen q sq acc, (fx_parents_seen fx && memz q seen) = false ->
+  parents_loop fx t c O seen (Some (q, sq)) acc = Val None.
+Proof. intros fx t c seen q sq acc G. cbn [parents_loop fst]. rewrite G. reflexivity. Qed.
+
+(* k-fold parent: one more step at the far end *)
+Lemma up_snoc : forall t k x q q', up t k x = Some q -> spec_parent_of t q = Some q' -> up t (S k) x = Some q'.
+Proof.
+  intros t. induction k as [|k IH]; intros x q q' H Hq.
+  - cbn [up] in H. inversion H; subst. cbn [up]. rewrite Hq. reflexivity.
+  - change (up t (S k) x) with (match spec_parent_of t x with Some y => up t k y | None => None end) in H.
+    change (up t (S (S k)) x) with (match spec_parent_of t x with Some y => up t (S k) y | None => None end).
+    destruct (spec_parent_of t x) as [y|]; [|discriminate]. apply (IH y q q' H Hq).
+Qed.
+
 Section Parents.
-  Variables (t : table) (c : option Z).
+  Variables (fx : fixes) (t : table) (c : option Z).
   Hypothesis W : wf_table t = true.
   Hypothesis F : cache_fresh_b t c = true.
 
   Lemma loop_step : forall f seen q sq e acc, lookup t q = Some e -> kp_start e = sq ->
-    parents_loop as_is t c (S f) seen (Some (q, sq)) acc =
-    parents_loop as_is t c f (q :: seen) (spec_parent t q sq) (acc ++ [q]).
+    (fx_parents_seen fx && memz q seen) = false ->
+    parents_loop fx t c (S f) seen (Some (q, sq)) acc =
+    parents_loop fx t c f (q :: seen) (spec_parent t q sq) (acc ++ [q]).
   Proof.
-    intros f seen q sq e acc L S. cbn [parents_loop fx_parents_seen as_is andb fst].
-    pose proof (parent_spec t c (obj_of (q, sq)) W (obj_alive t q sq e L S) F) as P.
+    intros f seen q sq e acc L S G. rewrite (loop_unfold fx t c f seen q sq acc G).
+    pose proof (parent_spec_fx fx t c (obj_of (q, sq)) W (obj_alive t q sq e L S) F) as P.
     rewrite P. cbn [obind obj_of o_pid o_ident fst snd]. reflexivity.
   Qed.
 
+  (* never an exception: a list, or fuel exhausted *)
+  Lemma loop_total : forall fuel q sq e acc seen,
+    lookup t q = Some e -> kp_start e = sq ->
+    parents_loop fx t c fuel seen (Some (q, sq)) acc = Val None \/
+    exists r, parents_loop fx t c fuel seen (Some (q, sq)) acc = Val (Some r).
+  Proof.
+    induction fuel as [|f IH]; intros q sq e acc seen L S;
+      destruct (fx_parents_seen fx && memz q seen) eqn:G.
+    - right. exists acc. apply andb_true_iff in G. destruct G. apply loop_seen; assumption.
+    - left. apply loop_zero. exact G.
+    - right. exists acc. apply andb_true_iff in G. destruct G. apply loop_seen; assumption.
+    - rewrite (loop_step f seen q sq e acc L S G).
+      destruct (spec_parent t q sq) as [[q2 s2]|] eqn:SP.
+      + destruct (spec_parent_listed _ _ _ _ _ SP) as [e' [L' S']]. apply (IH q2 s2 e'); assumption.
+      + right. eexists. apply loop_none.
+  Qed.
+
+  (* the chain ends: the loop returns it (the seen set never fires on a chain that ends) *)
   Lemma loop_complete : forall l q sq e acc seen fuel, chain t q l ->
     lookup t q = Some e -> kp_start e = sq -> (length l < fuel)%nat ->
-    parents_loop as_is t c fuel seen (Some (q, sq)) acc = Val (Some (acc ++ q :: l)).
+    (forall x, In x seen -> ~ In x (q :: l)) -> NoDup (q :: l) ->
+    parents_loop fx t c fuel seen (Some (q, sq)) acc = Val (Some (acc ++ q :: l)).
   Proof.
-    induction l as [|q' l IH]; intros q sq e acc seen fuel Ch L S B.
-    - destruct fuel as [|f]; [cbn [length] in B; lia|]. rewrite (loop_step f seen q sq e acc L S).
+    induction l as [|q' l IH]; intros q sq e acc seen fuel Ch L S B D ND.
+    - assert (G : (fx_parents_seen fx && memz q seen) = false).
+      { apply andb_false_iff. right. apply memz_false. intros Hq. apply (D q Hq). left. reflexivity. }
+      destruct fuel as [|f]; [cbn [length] in B; lia|]. rewrite (loop_step f seen q sq e acc L S G).
       inversion Ch as [p Hn|]; subst. rewrite (spec_parent_of_eq t q _ e L eq_refl) in Hn.
       destruct (spec_parent t q (kp_start e)); [discriminate|]. apply loop_none.
-    - destruct fuel as [|f]; [cbn [length] in B; lia|]. rewrite (loop_step f seen q sq e acc L S).
+    - assert (G : (fx_parents_seen fx && memz q seen) = false).
+      { apply andb_false_iff. right. apply memz_false. intros Hq. apply (D q Hq). left. reflexivity. }
+      destruct fuel as [|f]; [cbn [length] in B; lia|]. rewrite (loop_step f seen q sq e acc L S G).
       inversion Ch as [|p q0 l0 Hs Ch']; subst. rewrite (spec_parent_of_eq t q _ e L eq_refl) in Hs.
       destruct (spec_parent t q (kp_start e)) as [[q2 s2]|] eqn:SP; [|discriminate].
       cbn [option_map fst] in Hs. inversion Hs; subst.
       destruct (spec_parent_listed _ _ _ _ _ SP) as [e' [L' S']].
-      rewrite (IH q' s2 e' (acc ++ [q]) (q :: seen) f Ch' L' S'); [|cbn [length] in B; lia].
-      rewrite <- app_assoc. reflexivity.
+      apply NoDup_cons_iff in ND. destruct ND as [Hq NDl].
+      rewrite (IH q' s2 e' (acc ++ [q]) (q :: seen) f Ch' L' S').
+      + rewrite <- app_assoc. reflexivity.
+      + cbn [length] in B. lia.
+      + intros x [Hx|Hx] Hin.
+        * subst x. apply Hq. exact Hin.
+        * apply (D x Hx). right. exact Hin.
+      + exact NDl.
   Qed.
 
-  Lemma loop_sound : forall fuel q sq e acc seen r,
+  (* what is returned on an acyclic table is the chain *)
+  Lemma loop_sound : acyclic t -> forall fuel q sq e acc seen r,
     lookup t q = Some e -> kp_start e = sq ->
-    parents_loop as_is t c fuel seen (Some (q, sq)) acc = Val (Some r) ->
+    (forall x, In x seen -> exists k, up t (S k) x = Some q) ->
+    parents_loop fx t c fuel seen (Some (q, sq)) acc = Val (Some r) ->
     exists l, r = acc ++ q :: l /\ chain t q l.
   Proof.
-    induction fuel as [|f IH]; intros q sq e acc seen r L S H.
-    - cbn [parents_loop fx_parents_seen as_is andb] in H. discriminate.
-    - rewrite (loop_step f seen q sq e acc L S) in H.
+    intros AC. induction fuel as [|f IH]; intros q sq e acc seen r L St Hs H;
+      destruct (fx_parents_seen fx && memz q seen) eqn:G.
+    - apply andb_true_iff in G. destruct G as [_ G]. apply memz_In in G.
+      destruct (Hs q G) as [k Hk]. exfalso. apply (AC q k Hk).
+    - rewrite (loop_zero fx t c seen q sq acc G) in H. discriminate.
+    - apply andb_true_iff in G. destruct G as [_ G]. apply memz_In in G.
+      destruct (Hs q G) as [k Hk]. exfalso. apply (AC q k Hk).
+    - rewrite (loop_step f seen q sq e acc L St G) in H.
       destruct (spec_parent t q sq) as [[q2 s2]|] eqn:SP.
       + destruct (spec_parent_listed _ _ _ _ _ SP) as [e' [L' S']].
-        destruct (IH q2 s2 e' _ _ _ L' S' H) as [l [E Ch]].
-        exists (q2 :: l). split; [rewrite E, <- app_assoc; reflexivity|].
-        apply chain_cons; [|exact Ch]. rewrite (spec_parent_of_eq t q sq e L S), SP. reflexivity.
+        assert (Pq : spec_parent_of t q = Some q2) by (rewrite (spec_parent_of_eq t q sq e L St), SP; reflexivity).
+        destruct (IH q2 s2 e' (acc ++ [q]) (q :: seen) r L' S') as [l [E Ch]].
+        * intros x [Hx|Hx].
+          -- subst x. exists O. cbn [up]. rewrite Pq. reflexivity.
+          -- destruct (Hs x Hx) as [k Hk]. exists (S k). apply (up_snoc t (S k) x q q2 Hk Pq).
+        * exact H.
+        * exists (q2 :: l). split; [rewrite E, <- app_assoc; reflexivity|].
+          apply chain_cons; [exact Pq | exact Ch].
       + rewrite loop_none in H. injection H as Hr. subst r. exists []. split; [reflexivity|].
-        apply chain_end. rewrite (spec_parent_of_eq t q sq e L S), SP. reflexivity.
-  Qed.
-
-  Lemma loop_total : forall fuel q sq e acc seen,
-    lookup t q = Some e -> kp_start e = sq ->
-    parents_loop as_is t c fuel seen (Some (q, sq)) acc = Val None \/
-    exists r, parents_loop as_is t c fuel seen (Some (q, sq)) acc = Val (Some r).
-  Proof.
-    induction fuel as [|f IH]; intros q sq e acc seen L S.
-    - left. reflexivity.
-    - rewrite (loop_step f seen q sq e acc L S).
-      destruct (spec_parent t q sq) as [[q2 s2]|] eqn:SP.
-      + destruct (spec_parent_listed _ _ _ _ _ SP) as [e' [L' S']]. apply (IH q2 s2 e'); assumption.
-      + right. eexists. apply loop_none.
+        apply chain_end. rewrite (spec_parent_of_eq t q sq e L St), SP. reflexivity.
   Qed.
 End Parents.
 
@@ -200,7 +256,38 @@ Proof.
   unfold lowest_pid in Lr. rewrite Lr. unfold cache_fresh_b, is_root_b. rewrite Rr. apply Z.eqb_refl.
 Qed.
 
-(* parents() is the chain of parent() up to the root, whenever that chain ends *)
+(* ---- a chain that ends has no repeated process *)
+Lemma chain_fun : forall t p l, chain t p l -> forall l', chain t p l' -> l = l'.
+Proof.
+  intros t p l Ch. induction Ch as [p Hn | p q l Hs Ch IH]; intros l' Ch'.
+  - inversion Ch' as [|p0 q0 l0 Hs0]; subst; [reflexivity | congruence].
+  - inversion Ch' as [p0 Hn0 | p0 q0 l0 Hs0 Ch0]; subst; [congruence|].
+    assert (q0 = q) by congruence. subst q0. f_equal. apply IH. exact Ch0.
+Qed.
+
+Lemma chain_suffix : forall t l1 p q l2, chain t p (l1 ++ q :: l2) -> chain t q l2.
+Proof.
+  intros t. induction l1 as [|a l1 IH]; intros p q l2 Ch; cbn [app] in Ch.
+  - inversion Ch; subst. assumption.
+  - inversion Ch as [|p0 q0 l0 Hs Ch']; subst. apply (IH a q l2 Ch').
+Qed.
+
+Lemma chain_not_in : forall t p l, chain t p l -> ~ In p l.
+Proof.
+  intros t p l Ch Hin. apply in_split in Hin. destruct Hin as [l1 [l2 E]]. subst l.
+  pose proof (chain_suffix t l1 p p l2 Ch) as Ch2.
+  pose proof (chain_fun t p _ Ch _ Ch2) as E.
+  apply (f_equal (@length Z)) in E. rewrite app_length in E. cbn [length] in E. lia.
+Qed.
+
+Lemma chain_NoDup : forall t p l, chain t p l -> NoDup (p :: l).
+Proof.
+  intros t p l Ch. induction Ch as [p Hn | p q l Hs Ch IH].
+  - constructor; [intros [] | constructor].
+  - constructor; [|exact IH]. apply (chain_not_in t p (q :: l)). apply chain_cons; assumption.
+Qed.
+
+(* parents() is the chain of parent() up to the root, whenever that chain ends ... *)
 Theorem parents_chain_complete : forall t cache o l fuel, wf_table t = true -> alive_b t o = true ->
   cache_fresh_b t cache = true -> chain t (o_pid o) l -> (length l <= fuel)%nat ->
   parents as_is fuel t cache o = Val (Some l).
@@ -208,72 +295,189 @@ Proof.
   intros t cache o l fuel W A F Ch B. destruct (alive_facts t o A) as [_ [_ [e [L S]]]].
   unfold parents. rewrite (parent_spec t cache o W A F). cbn [obind].
   pose proof (cache_after_fresh t cache o A F) as F'.
+  pose proof (chain_NoDup t _ _ Ch) as ND.
   inversion Ch as [p Hn | p q l' Hs Ch']; subst.
   - rewrite (spec_parent_of_eq t _ _ e L S) in Hn.
-    destruct (spec_parent t (o_pid o) (o_ident o)); [discriminate|].
-    apply loop_none.
+    destruct (spec_parent t (o_pid o) (o_ident o)); [discriminate|]. apply loop_none.
   - rewrite (spec_parent_of_eq t _ _ e L S) in Hs.
     destruct (spec_parent t (o_pid o) (o_ident o)) as [[q2 s2]|] eqn:SP; [|discriminate].
     cbn [option_map fst] in Hs. inversion Hs; subst.
     destruct (spec_parent_listed _ _ _ _ _ SP) as [e' [L' S']].
-    rewrite (loop_complete t _ W F' l' q s2 e' [] [o_pid o] fuel Ch' L' S'); [reflexivity|].
-    cbn [length] in B. lia.
+    apply NoDup_cons_iff in ND. destruct ND as [Hp ND'].
+    rewrite (loop_complete as_is t _ W F' l' q s2 e' [] [o_pid o] fuel Ch' L' S'); [reflexivity| | |exact ND'].
+    + cbn [length] in B. lia.
+    + intros x [Hx|[]] Hin. subst x. apply Hp. exact Hin.
 Qed.
 
-Theorem parents_chain_sound : forall t cache o l fuel, wf_table t = true -> alive_b t o = true ->
-  cache_fresh_b t cache = true ->
-  parents as_is fuel t cache o = Val (Some l) -> chain t (o_pid o) l.
+Lemma parent_some_listed : forall fx t c o q sq, parent fx t c o = Val (Some (q, sq)) -> In q (pids_of t).
 Proof.
-  intros t cache o l fuel W A F H. destruct (alive_facts t o A) as [_ [_ [e [L S]]]].
-  unfold parents in H. rewrite (parent_spec t cache o W A F) in H. cbn [obind] in H.
+  intros fx t c o q sq H. unfold parent in H.
+  destruct (if fx_parent_reuse fx then raise_if_pid_reused t o else Val tt) as [u| |]; cbn [obind] in H; try discriminate.
+  destruct (lowest_pid t c) as [low| |]; cbn [obind] in H; try discriminate.
+  destruct (o_pid o =? low); [discriminate|].
+  destruct (ppid_call t o) as [pp| |]; cbn [obind] in H; try discriminate.
+  destruct (self_ctime t o) as [ct| |]; cbn [obind] in H; try discriminate.
+  unfold proc_new in H. destruct (pp <? 0); [discriminate|]. destruct (PID_MAX <? pp).
+  { discriminate. }
+  cbn [memz existsb] in H. destruct (lookup t pp) as [pe|] eqn:Lp; [|discriminate].
+  destruct (kp_start pe <=? ct); [|discriminate]. injection H as E1 E2. subst q.
+  apply lookup_In in Lp. destruct Lp as [He Ep]. rewrite <- Ep. unfold pids_of. apply in_map. exact He.
+Qed.
+
+Lemma NoDup_snoc : forall (l : list Z) x, NoDup l -> ~ In x l -> NoDup (l ++ [x]).
+Proof.
+  induction l as [|a l IH]; intros x N Hx; cbn [app].
+  - constructor; [intros [] | constructor].
+  - inversion N as [|? ? Ha Nl]; subst. constructor.
+    + intros H. apply in_app_or in H. destruct H as [H|[H|[]]]; [contradiction|].
+      subst. apply Hx. left. reflexivity.
+    + apply IH; [exact Nl|]. intros H. apply Hx. right. exact H.
+Qed.
+
+(* ... it terminates within |t|+1 loop tests on ANY table, any cache, any caller state *)
+Lemma loop_terminates : forall fx t c, fx_parents_seen fx = true ->
+  forall fuel seen cur acc, NoDup acc -> incl acc (pids_of t) -> incl acc seen ->
+  (forall ps, cur = Some ps -> In (fst ps) (pids_of t)) ->
+  (length t + 1 <= fuel + length acc)%nat ->
+  parents_loop fx t c fuel seen cur acc <> Val None.
+Proof.
+  intros fx t c Fx. induction fuel as [|f IH]; intros seen cur acc ND I1 I2 Hc B.
+  - destruct cur as [[q sq]|]; [|rewrite loop_none; discriminate].
+    destruct (memz q seen) eqn:M; [rewrite (loop_seen fx t c O seen q sq acc Fx M); discriminate|].
+    exfalso. apply memz_false in M.
+    assert (Hq : ~ In q acc) by (intros H; apply M; apply I2; exact H).
+    pose proof (NoDup_incl_length (NoDup_snoc acc q ND Hq)) as Len.
+    specialize (Len (pids_of t)). rewrite app_length in Len. unfold pids_of in Len. rewrite map_length in Len.
+    cbn [length] in Len. assert ((length acc + 1 <= length t)%nat); [|lia].
+    apply Len. intros x Hx. apply in_app_or in Hx. destruct Hx as [Hx|[Hx|[]]]; [apply I1; exact Hx|].
+    subst x. apply (Hc (q, sq) eq_refl).
+  - destruct cur as [[q sq]|]; [|rewrite loop_none; discriminate].
+    destruct (memz q seen) eqn:M; [rewrite (loop_seen fx t c (S f) seen q sq acc Fx M); discriminate|].
+    rewrite (loop_unfold fx t c f seen q sq acc); [|rewrite M; apply andb_false_r].
+    apply memz_false in M.
+    assert (Hq : ~ In q acc) by (intros H; apply M; apply I2; exact H).
+    destruct (parent fx t c (obj_of (q, sq))) as [nxt| |] eqn:P; cbn [obind]; try discriminate.
+    apply IH.
+    + apply NoDup_snoc; assumption.
+    + intros x Hx. apply in_app_or in Hx. destruct Hx as [Hx|[Hx|[]]]; [apply I1; exact Hx|].
+      subst x. apply (Hc (q, sq) eq_refl).
+    + intros x Hx. apply in_app_or in Hx. destruct Hx as [Hx|[Hx|[]]]; [right; apply I2; exact Hx|].
+      left. exact Hx.
+    + intros [q2 s2] E. subst nxt. cbn [fst]. apply (parent_some_listed fx t c _ q2 s2 P).
+    + rewrite app_length. cbn [length]. lia.
+Qed.
+
+Theorem parents_terminates : forall fx t cache o, fx_parents_seen fx = true ->
+  parents fx (S (length t)) t cache o <> Val None.
+Proof.
+  intros fx t cache o Fx. unfold parents.
+  destruct (parent fx t cache o) as [first| |] eqn:P; cbn [obind]; try discriminate.
+  apply (loop_terminates fx t _ Fx).
+  - constructor.
+  - intros x [].
+  - intros x [].
+  - intros [q sq] E. subst first. cbn [fst]. apply (parent_some_listed fx t cache o q sq P).
+  - cbn [length]. lia.
+Qed.
+
+(* ... and on a table without cyclic parent links it returns exactly the chain up to the root *)
+Theorem parents_acyclic_chain : forall t cache o, wf_table t = true -> alive_b t o = true ->
+  cache_fresh_b t cache = true -> acyclic t ->
+  exists l, parents as_is (S (length t)) t cache o = Val (Some l) /\ chain t (o_pid o) l.
+Proof.
+  intros t cache o W A F AC. destruct (alive_facts t o A) as [_ [_ [e [L S]]]].
+  pose proof (parents_terminates as_is t cache o eq_refl) as T.
+  unfold parents in *. rewrite (parent_spec t cache o W A F) in *. cbn [obind] in *.
   pose proof (cache_after_fresh t cache o A F) as F'.
   destruct (spec_parent t (o_pid o) (o_ident o)) as [[q2 s2]|] eqn:SP.
   - destruct (spec_parent_listed _ _ _ _ _ SP) as [e' [L' S']].
-    destruct (loop_sound t _ W F' fuel q2 s2 e' [] _ l L' S' H) as [l' [E Ch]].
-    cbn [app] in E. subst l. apply chain_cons; [|exact Ch].
-    rewrite (spec_parent_of_eq t _ _ e L S), SP. reflexivity.
-  - rewrite loop_none in H. assert (l = []) by (inversion H; reflexivity). subst.
+    assert (Pq : spec_parent_of t (o_pid o) = Some q2) by (rewrite (spec_parent_of_eq t _ _ e L S), SP; reflexivity).
+    destruct (loop_total as_is t _ W F' (S (length t)) q2 s2 e' [] [o_pid o] L' S') as [N|[r Hr]]; [contradiction|].
+    destruct (loop_sound as_is t _ W F' AC (S (length t)) q2 s2 e' [] [o_pid o] r L' S') as [l [E Ch]].
+    + intros x [Hx|[]]. subst x. exists O. cbn [up]. rewrite Pq. reflexivity.
+    + exact Hr.
+    + cbn [app] in E. subst r. exists (q2 :: l). split; [exact Hr|]. apply chain_cons; assumption.
+  - exists []. split; [apply loop_none|].
     apply chain_end. rewrite (spec_parent_of_eq t _ _ e L S), SP. reflexivity.
 Qed.
 
-(* ... and no other outcome is possible: a list or fuel exhaustion, never an exception *)
-Theorem parents_total : forall t cache o fuel, wf_table t = true -> alive_b t o = true ->
+(* never an exception for a live caller *)
+Theorem parents_total : forall t cache o, wf_table t = true -> alive_b t o = true ->
   cache_fresh_b t cache = true ->
-  parents as_is fuel t cache o = Val None \/ exists l, parents as_is fuel t cache o = Val (Some l).
+  exists l, parents as_is (S (length t)) t cache o = Val (Some l).
 Proof.
-  intros t cache o fuel W A F. unfold parents. rewrite (parent_spec t cache o W A F). cbn [obind].
+  intros t cache o W A F. pose proof (parents_terminates as_is t cache o eq_refl) as T.
+  unfold parents in *. rewrite (parent_spec t cache o W A F) in *. cbn [obind] in *.
   pose proof (cache_after_fresh t cache o A F) as F'.
   destruct (spec_parent t (o_pid o) (o_ident o)) as [[q2 s2]|] eqn:SP.
   - destruct (spec_parent_listed _ _ _ _ _ SP) as [e' [L' S']].
-    apply (loop_total t _ W F' fuel q2 s2 e'); assumption.
-  - right. exists []. apply loop_none.
+    destruct (loop_total as_is t _ W F' (S (length t)) q2 s2 e' [] [o_pid o] L' S') as [N|[r Hr]]; [contradiction|].
+    exists r. exact Hr.
+  - exists []. apply loop_none.
 Qed.
 
-(* non-termination on a ppid self-loop: fuel is exhausted whatever the fuel *)
+(* sufficient, decidable condition for acyclicity: every returned parent started strictly earlier *)
+Lemma up_older : forall t, strictly_older_b t = true -> forall k p q, up t (S k) p = Some q ->
+  exists ep eq, lookup t p = Some ep /\ lookup t q = Some eq /\ kp_start eq < kp_start ep.
+Proof.
+  intros t SO. rewrite forallb_forall in SO.
+  assert (Step : forall p q, spec_parent_of t p = Some q ->
+            exists ep eq, lookup t p = Some ep /\ lookup t q = Some eq /\ kp_start eq < kp_start ep).
+  { intros p q H. unfold spec_parent_of in H. destruct (lookup t p) as [ep|] eqn:Lp; [|discriminate].
+    pose proof (lookup_In _ _ _ Lp) as [Hep Ep]. specialize (SO ep Hep). rewrite Ep in SO.
+    destruct (spec_parent t p (kp_start ep)) as [[q2 s2]|] eqn:SP; [|discriminate].
+    cbn [option_map fst] in H. inversion H; subst.
+    destruct (spec_parent_listed _ _ _ _ _ SP) as [eq [Lq Sq]].
+    exists ep, eq. split; [reflexivity|]. split; [exact Lq|]. apply Z.ltb_lt in SO. lia. }
+  induction k as [|k IH]; intros p q H.
+  - cbn [up] in H. destruct (spec_parent_of t p) as [y|] eqn:Py; [|discriminate].
+    inversion H; subst. apply Step. exact Py.
+  - change (up t (S (S k)) p) with (match spec_parent_of t p with Some y => up t (S k) y | None => None end) in H.
+    destruct (spec_parent_of t p) as [y|] eqn:Py; [|discriminate].
+    destruct (Step p y Py) as [ep [ey [Lp [Ly Lt]]]].
+    destruct (IH y q H) as [ey' [eq [Ly' [Lq Lt']]]].
+    rewrite Ly in Ly'. inversion Ly'; subst. exists ep, eq. repeat split; try assumption. lia.
+Qed.
+
+Theorem strictly_older_acyclic : forall t, strictly_older_b t = true -> acyclic t.
+Proof.
+  intros t SO p k H. destruct (up_older t SO k p p H) as [ep [eq [Lp [Lq Lt]]]].
+  rewrite Lp in Lq. inversion Lq; subst. lia.
+Qed.
+
+Definition tree4 : table := [ {| kp_pid := 1; kp_ppid := 0; kp_start := 1 |};
+                              {| kp_pid := 5; kp_ppid := 1; kp_start := 30 |};
+                              {| kp_pid := 8; kp_ppid := 5; kp_start := 40 |};
+                              {| kp_pid := 9; kp_ppid := 8; kp_start := 41 |} ].
+Definition o9 : pobj := {| o_pid := 9; o_ident := 41; o_ctime := None |}.
+Example tree4_hyps : wf_table tree4 = true /\ alive_b tree4 o9 = true /\ cache_fresh_b tree4 None = true /\
+  acyclic tree4 /\ parents as_is 5 tree4 None o9 = Val (Some [8; 5; 1]).
+Proof.
+  split; [reflexivity|]. split; [reflexivity|]. split; [reflexivity|].
+  split; [apply strictly_older_acyclic; reflexivity | vm_compute; reflexivity].
+Qed.
+
+(* the code before repair e202d3b: on a ppid self-loop parents() exhausts every fuel *)
 Definition loop17 : table := [ {| kp_pid := 1; kp_ppid := 0; kp_start := 1 |};
                                {| kp_pid := 7; kp_ppid := 7; kp_start := 50 |} ].
 
 Lemma loop17_spin : forall fuel seen acc,
-  parents_loop as_is loop17 (Some 1) fuel seen (Some (7, 50)) acc = Val None.
+  parents_loop before_fixes loop17 (Some 1) fuel seen (Some (7, 50)) acc = Val None.
 Proof.
   induction fuel as [|f IH]; intros seen acc; [reflexivity|].
-  rewrite (loop_step loop17 (Some 1) eq_refl eq_refl f seen 7 50
-             {| kp_pid := 7; kp_ppid := 7; kp_start := 50 |} acc eq_refl eq_refl).
+  rewrite (loop_step before_fixes loop17 (Some 1) eq_refl eq_refl f seen 7 50
+             {| kp_pid := 7; kp_ppid := 7; kp_start := 50 |} acc eq_refl eq_refl eq_refl).
   change (spec_parent loop17 7 50) with (Some (7, 50)). apply IH.
 Qed.
 
-Theorem parents_nonterminating_refuted :
+Theorem parents_old_nonterminating_refuted :
   exists t o, wf_table t = true /\ alive_b t o = true /\
-              forall fuel, parents as_is fuel t None o = Val None.
+              forall fuel, parents before_fixes fuel t None o = Val None.
 Proof.
   exists loop17, o7. split; [reflexivity|]. split; [reflexivity|]. intros fuel.
-  unfold parents. change (parent as_is loop17 None o7) with (Val (A := option (Z * Z)) (Some (7, 50))).
+  unfold parents. change (parent before_fixes loop17 None o7) with (Val (A := option (Z * Z)) (Some (7, 50))).
   cbn [obind]. change (cache_after loop17 None) with (Some 1). apply loop17_spin.
 Qed.
 
-Theorem parents_recycled : forall t cache o low fuel, recycled_b t o = true ->
-  lowest_pid t cache = Val low -> o_pid o <> low ->
-  parents as_is fuel t cache o = Exc NoSuchProcess.
-Proof.
-  intros t cache o low fuel H Lw Ne. unfold parents. rewrite (parent_recycled t cache o low H Lw Ne). reflexivity.
-Qed.
+Example loop17_now : parents as_is 3 loop17 None o7 = Val (Some []).
+Proof. vm_compute. reflexivity. Qed.
